@@ -718,6 +718,27 @@ def mon_results(sc, r):
                 if not mm or mm.group(2).rstrip("\r") != f"{binary_id(t)} {t['name']}": continue
                 if mm.group(1) != STATUS_WORD[gotn[0]]:
                     out.append(viol(sc, r, "result", f"test {t['name']!r}: its only attempt ended {gotn[0]} and its status line says {mm.group(1)!r} (expected {STATUS_WORD[gotn[0]]!r}): each outcome is reported as what it is"))
+        # … and, for a test with several attempts: every `TRY k` line shows the k-th attempt's outcome, and the test is shown FLAKY
+        # (with the number of the attempt that passed) exactly when its last attempt passed after failed ones
+        if gotn == want and len(gotn) > 1:
+            flaky_lines = []
+            for line in r.stderr.split("\n"):
+                mm = re.match(r"\s+(?:TRY (\d+) )?(PASS|LEAK|FAIL \+ LEAK|FAIL|XFAIL|TIMEOUT|FLAKY \S+|SIG[A-Z0-9]+|ABORT SIG \d+)\s+\[[^\]]*\]\s+(.*)$", line)
+                if not mm or mm.group(3).rstrip("\r") != f"{binary_id(t)} {t['name']}": continue
+                if mm.group(2).startswith("FLAKY"): flaky_lines.append(mm.group(2)); continue
+                if mm.group(1) and 1 <= int(mm.group(1)) <= len(gotn):
+                    g = gotn[int(mm.group(1)) - 1]
+                    # (a flaky test's passing attempt is shown as `TRY k PASS` also when it leaked: a leak is a pass, and the
+                    #  structured result — events, statistics, JUnit — carries the leak; not demanded here)
+                    if g in STATUS_WORD and mm.group(2) != STATUS_WORD[g] and not (g == "L" and mm.group(2) == "PASS"):
+                        out.append(viol(sc, r, "result", f"test {t['name']!r}: attempt {mm.group(1)} ended {g} and its line says {mm.group(2)!r} (expected {STATUS_WORD[g]!r})"))
+            is_flaky = gotn[-1] in ("P", "L")
+            if is_flaky and not any(f == f"FLAKY {len(gotn)}/{total}" for f in flaky_lines):
+                out.append(viol(sc, r, "flaky", f"test {t['name']!r} passed on attempt {len(gotn)} of {total} after failed attempts but is not shown as FLAKY {len(gotn)}/{total} (lines: {flaky_lines})"))
+            if not is_flaky and flaky_lines:
+                out.append(viol(sc, r, "flaky", f"test {t['name']!r} failed every attempt ({gotn}) but is shown {flaky_lines}"))
+        if gotn == want and len(gotn) == 1 and any(re.match(r"\s+FLAKY \S+\s+\[[^\]]*\]\s+" + re.escape(f"{binary_id(t)} {t['name']}") + r"\r?$", line) for line in r.stderr.split("\n")):
+            out.append(viol(sc, r, "flaky", f"test {t['name']!r} ran a single attempt and is shown as flaky"))
         for s, a in zip(sts, exp):
             slow = s.split(":")[2] == "slow"
             if a.get("slow") and not slow and a["expect"] != "T": out.append(viol(sc, r, "slow-flag", f"test {t['name']!r}: ran {SLOW_PERIOD + 250}ms with period {SLOW_PERIOD}ms but is not marked slow"))
